@@ -22,6 +22,11 @@ def check(run):
         xc.replay_validate(run, groups, extra_driver_args=v)
         if run.violations:
             break
+    # a decaying award schedule: the total supply grows by CalcAward(height) per applied block, and shrinks by it on undo
+    if not run.violations:
+        dgroups = xc.gen(run, [dict(num=30 if quick else 300, ops=22, maxb=10, txs=tok, consts={"AwardSched": "<- DecaySched"})], tag="d")
+        xc.replay_validate(run, dgroups)
+        groups = groups + dgroups
     # engine level: pushed blocks with a wrong award must be refused by Miner.ProcBlock (IsValidTx / CalcAward)
     est = {}
     if not run.violations:
